@@ -70,6 +70,14 @@ def canWriteMaxSerial : Nat := 99999
 def canWriteMaxChainLen : Nat := 1
 def canWriteMaxResSeq : Nat := 9999
 
+/-- `can_write_pdb`, branch `format_type == "PDB"`: `true` = it returns True without looking at the table;
+`false` = it compares serial / chainID length / resSeq with the three limits below (when the table is assumed to
+fit the limits are not in the source and are emitted equal to the mmCIF ones, unused) -/
+def pdbAssumedToFit : Bool := false
+def canWritePdbMaxSerial : Nat := 99999
+def canWritePdbMaxChainLen : Nat := 1
+def canWritePdbMaxResSeq : Nat := 9999
+
 /-- `fit_to_pdb` -/
 def maxSerial : Nat := 99999
 def maxResSeq : Nat := 9999
